@@ -1,12 +1,12 @@
 (* C10 — A clock domain advances exactly when its enable is active.
-   Statements only; proofs are in Proofs/C10/{Domain,Tree,Examples}.v (on top of Proofs/C05).
+   Statements only; proofs are in Proofs/C10/{Domain,Tree,Examples,Hier}.v (on top of Proofs/C05).
    Kernel theorems are about Model/SimKernel.v for EVERY design (arbitrary leaf functions, any number of domains,
    any enable wire — in particular a wire prepared by a register INSIDE the gated domain: the enable is read from
    `vals s`, which no clock function changes during the edge) and every pre-edge state.
    A domain is an entry `drv` of the driver table: drivers d = pre ++ drv :: post.
    The lookup theorems are about the hand model Model/ClockTree.v of getObjectClockDriver / topologicalSort. *)
 From V Require Import Base.Bits Gen.WireOps Model.SimKernel Model.ClockTree Spec.C05 Spec.C10 Spec.C10Tree
-                      Proofs.C05.Edge Proofs.C10.Domain Proofs.C10.Tree Proofs.C10.Examples.
+                      Proofs.C05.Edge Proofs.C10.Domain Proofs.C10.Tree Proofs.C10.Examples Proofs.C10.Hier.
 From Coq Require Import Permutation.
 
 (* ---- the per-domain reference: what the edge does to domain drv is a function of drv, the leaf table and the
@@ -98,6 +98,44 @@ Theorem C10_buckets_error :
     exists i o, nth_error (leaves_of t None) i = Some (true, o) /\ getObjectClockDriver o = None.
 Proof. exact buckets_error. Qed.
 
+(* ---- END TO END: hierarchy -> driver table -> gating -------------------------------------------------------------
+   The kernel's driver table is the bucket table B of the hierarchy t (Proofs/C10/Hier.v: drivers_of en idx B, one
+   kernel driver per bucket: enable wire `en x` of driver x, leaves `map idx ls`), where idx renumbers allLeaves
+   positions into the kernel's leaf table and is injective on the registered leaves.  Then `registered_once` is no
+   longer a hypothesis ... *)
+Theorem C10_buckets_registered_once :
+  forall (St : Type) (d : design St) (t : htree nat) (B : list (nat * list nat))
+         (en : nat -> option nat) (idx : nat -> nat),
+    clock_buckets t = Some B -> inj_on idx (flat_map snd B) -> drivers d = drivers_of en idx B ->
+    registered_once d.
+Proof. exact @buckets_registered_once. Qed.
+
+(* ... and a clockable leaf (allLeaves position i, object o) whose NEAREST-ANCESTOR driver is x keeps its state across
+   the edge and across the whole cycle whenever x's enable wire reads 0 before the edge; so does every wire prepared
+   only by leaves whose nearest-ancestor driver is x (through the cycle: if no combinational leaf writes it) *)
+Theorem C10_hierarchy_gated_holds :
+  forall (St : Type) (d : design St) (s : state St) (t : htree nat) (B : list (nat * list nat))
+         (en : nat -> option nat) (idx : nat -> nat) (i : nat) (o : obj nat) (x we : nat),
+    clock_buckets t = Some B -> inj_on idx (flat_map snd B) -> drivers d = drivers_of en idx B ->
+    nth_error (leaves_of t None) i = Some (true, o) -> getObjectClockDriver o = Some x ->
+    en x = Some we -> rd (vals s) we = 0 ->
+    nth_error (sts (clock_drivers d s)) (idx i) = nth_error (sts s) (idx i) /\
+    nth_error (sts (clk_cycle d s)) (idx i) = nth_error (sts s) (idx i) /\
+    (pend s = [] -> forall w, only_from_nearest d t idx x w ->
+       rd (vals (settleAll (clock_drivers d s))) w = rd (vals s) w /\
+       ((forall c, In c (combs d) -> ~ In w (c_out c)) -> rd (vals (clk_cycle d s)) w = rd (vals s) w)).
+Proof. exact @hierarchy_gated_holds. Qed.
+
+(* companion: x's enable wire reads non-zero before the edge => edge and cycle (whole state) are those of the same
+   design with driver x ungated (holds for any table B) *)
+Theorem C10_hierarchy_enabled_same :
+  forall (St : Type) (d : design St) (s : state St) (B : list (nat * list nat))
+         (en : nat -> option nat) (idx : nat -> nat) (x we : nat),
+    drivers d = drivers_of en idx B -> en x = Some we -> rd (vals s) we <> 0 ->
+    clock_drivers (with_drivers d (drivers_of (ungate_at x en) idx B)) s = clock_drivers d s /\
+    clk_cycle (with_drivers d (drivers_of (ungate_at x en) idx B)) s = clk_cycle d s.
+Proof. exact @hierarchy_enabled_same. Qed.
+
 (* ---- non-vacuity ------------------------------------------------------------------------------------------------ *)
 (* a domain whose enable is the output of a register inside it: advances once, clears its own enable, then stays
    frozen while the free-running domain keeps counting *)
@@ -124,6 +162,18 @@ Example C10_tree_example :
   clock_buckets (HNode None false [HNode None false []]) = Some [].
 Proof. exact (conj ex_tree_buckets ex_tree_no_driver). Qed.
 
+(* the hypotheses of the end-to-end theorems on ex_tree: leaf 2 sits two levels below sub-block A (driver 9, enable =
+   wire 4); with the enable at 0 the sub-domain is frozen while the top domain counts, with 1 everything counts *)
+Example C10_hierarchy_example :
+  (clock_buckets ex_tree = Some ex_h_B /\ inj_on ex_h_idx (flat_map snd ex_h_B) /\
+   drivers ex_h = drivers_of ex_h_en ex_h_idx ex_h_B /\
+   (exists o, nth_error (leaves_of ex_tree None) 2 = Some (true, o) /\ getObjectClockDriver o = Some 9%nat) /\
+   ex_h_en 9%nat = Some 4%nat /\ rd (vals ex_h_s0) 4 = 0 /\ rd (vals ex_h_s1) 4 <> 0 /\
+   only_from_nearest ex_h ex_tree ex_h_idx 9%nat 1%nat /\ registered_once ex_h) /\
+  vals (cycles ex_h 3 ex_h_s0) = [0; 0; 3; 3; 0] /\ sts (cycles ex_h 3 ex_h_s0) = [0; 0; 3; 3] /\
+  vals (cycles ex_h 3 ex_h_s1) = [3; 3; 3; 3; 1].
+Proof. exact (conj ex_h_hyps ex_h_runs). Qed.
+
 Print Assumptions C10_domain_reference.
 Print Assumptions C10_gated_holds.
 Print Assumptions C10_gated_holds_cycle.
@@ -133,3 +183,6 @@ Print Assumptions C10_nearest_ancestor.
 Print Assumptions C10_inherited_topdown.
 Print Assumptions C10_buckets_partition.
 Print Assumptions C10_buckets_error.
+Print Assumptions C10_buckets_registered_once.
+Print Assumptions C10_hierarchy_gated_holds.
+Print Assumptions C10_hierarchy_enabled_same.
